@@ -32,7 +32,9 @@ RULE = (
     "oracle: output == [r for r in input if reference(expr, r, lenient)] by canonical observation, in particular "
     "nothing after the first record lacking the field is lost.  Part C: sequences mixing two descriptors that share a "
     "name, only one of which has the compared field, in both orders, through match() of one long-lived and of fresh "
-    "selector objects (compiled and interpreted), RecordReader and rdump; same oracle.  A case is non-trivial when at least one engine "
+    "selector objects (compiled and interpreted), RecordReader and rdump; same oracle.  Part D: the same for sequences "
+    "of GroupedRecord objects of varying composition (a group lacking the field first, then groups having it, and the "
+    "other order) over the binary stream formats.  A case is non-trivial when at least one engine "
     "evaluation / one stream with records having and lacking the field was run; distinct = distinct (expression, "
     "record or stream seed, access path)."
 )
@@ -212,6 +214,9 @@ SAME_TEMPLATES = ["r.k > 1", "r.k == 2", "r.k != 2", "r.k <= 3", "2 < r.k", "r.k
 SAME_VIAS = ("match-one-compiled", "match-fresh-compiled", "match-one-interpreted", "reader-text", "reader-compiled", "rdump", "rdump-n")
 
 
+GROUPED_EXTRA = ["r.f >= 1.5", "r.t == 'Hello'", "'ell' in r.t", "r.k > 1 and r.f > 1", "Type.varint == 2", "has_field(r, 'k')"]
+
+
 def table_rows():
     """The enumerated comparison grammar (independent of seed)."""
     for op in OPS:
@@ -269,6 +274,19 @@ def generate(ctx):
                     for fmt in fmts:
                         if ctx.mine(idx):
                             yield {"k": "same-name", "expr": expr, "ti": ti, "order": order, "via": via, "fmt": fmt, "s": sseed,
+                                   "n": ctx.scale(10, 24)}
+                        idx += 1
+    # ---- part D: grouped records of different composition (all GroupedRecord objects share one class)
+    for si in range(ctx.scale(1, 4)):
+        sseed = subseed("c08", ctx.seed, "grouped", si)
+        for order in ("with-field-first", "without-field-first"):
+            for ti, expr in enumerate(SAME_TEMPLATES + GROUPED_EXTRA):
+                for vi, via in enumerate(SAME_VIAS):
+                    gfmts = ("records", "records.gz")   # the binary stream is the only adapter that yields grouped records
+                    fmts = [gfmts[(ti + vi + si) % 2]] if (ctx.quick or via.startswith("match")) else gfmts
+                    for fmt in fmts:
+                        if ctx.mine(idx):
+                            yield {"k": "grouped", "expr": expr, "ti": ti, "order": order, "via": via, "fmt": fmt, "s": sseed,
                                    "n": ctx.scale(10, 24)}
                         idx += 1
     # ---- part B: heterogeneous streams
@@ -660,17 +678,41 @@ def build_same(seed, order, n, ti=0):
     return out
 
 
+def build_grouped(seed, order, n):
+    """Grouped records of varying composition: every group holds a c08/g1 member (serial number), some also a c08/g2
+    member (fields k, t) and / or a c08/g3 member (field f).  The first group has / lacks the c08/g2 member per `order`."""
+    from flow.record import GroupedRecord, RecordDescriptor
+
+    rng = random.Random(seed)
+    G1 = RecordDescriptor("c08/g1", [("varint", "seq"), ("string", "s")])
+    G2 = RecordDescriptor("c08/g2", [("varint", "k"), ("string", "t")])
+    G3 = RecordDescriptor("c08/g3", [("float", "f")])
+    first = [True, False] if order == "with-field-first" else [False, True]
+    out = []
+    for i in range(n):
+        with_k = first[i] if i < 2 else rng.random() < 0.5
+        members = [G1(seq=i, s=rng.choice(selgen.TEXTS))]
+        if with_k:
+            members.append(G2(k=rng.choice(selgen.INTS), t=rng.choice(selgen.TEXTS)))
+        if rng.random() < 0.5:
+            members.append(G3(f=rng.choice([0.0, 1.5, 100.0])))
+        rng.shuffle(members)
+        out.append(GroupedRecord("c08/group", members))
+    return out
+
+
 def exec_same_name(ctx, case):
     from flow.record import RecordWriter
     from flow.record.selector import CompiledSelector, Selector
 
     expr, via, order, fmt = case["expr"], case["via"], case["order"], case["fmt"]
     ti = case.get("ti", 0)
-    key = ("same", case["s"], order, case["n"], fmt, ti)
+    grouped = case["k"] == "grouped"
+    key = (case["k"], case["s"], order, case["n"], fmt, ti)
     cache = ctx.state["streams"]
     if key not in cache:
-        records = build_same(case["s"], order, case["n"], ti)
-        path = os.path.join(ctx.state["tmp"], "same-%x-%s-%d-%d.%s" % (case["s"], order, case["n"], ti, fmt))
+        records = build_grouped(case["s"], order, case["n"]) if grouped else build_same(case["s"], order, case["n"], ti)
+        path = os.path.join(ctx.state["tmp"], "%s-%x-%s-%d-%d.%s" % (case["k"], case["s"], order, case["n"], ti, fmt))
         w = RecordWriter(path)
         for r in records:
             w.write(r)
@@ -678,10 +720,14 @@ def exec_same_name(ctx, case):
         w.close()
         cache[key] = (path, records)
     path, records = cache[key]
-    if expr == "r.k + 1 > 2":
-        keep = ["k" in r._desc.fields and ref_match(expr, r) for r in records]
-    else:
-        keep = [ref_match(expr, r, lenient=True) for r in records]
+    try:
+        if expr == "r.k + 1 > 2":
+            keep = ["k" in r._desc.fields and ref_match(expr, r) for r in records]
+        else:
+            keep = [ref_match(expr, r, lenient=True) for r in records]
+    except (Undefined, Unsupported):
+        ctx.event("skipped:%s-selector-undefined-on-some-record" % case["k"])
+        return
     expected = [ident(r) for r, k in zip(records, keep) if k]
     ctx.ev()
     err = None
@@ -700,18 +746,21 @@ def exec_same_name(ctx, case):
     else:
         got, err, swallowed = run_via(ctx, via, path, expr)
         actual = [ident(r) for r in got]
-    ctx.event("same-name sequences")
-    ctx.event("same-name:" + via)
-    ctx.cell("same-name", order, via)
+    what = case["k"]
+    ctx.event(what + " sequences")
+    ctx.event(what + ":" + via)
+    ctx.cell(what, order, via)
     if any(keep) and not all(keep):
-        ctx.nontrivial("same-name", expr, order, case["s"], via, fmt)
-    ctx.sample({"selector": expr, "order": order, "via": via, "in": len(records), "out": len(actual)}, kind="same-name:" + order + ":" + via)
+        ctx.nontrivial(what, expr, order, case["s"], via, fmt)
+    ctx.sample({"selector": expr, "order": order, "via": via, "in": len(records), "out": len(actual)}, kind=what + ":" + order + ":" + via)
     if actual == expected and err is None and not swallowed:
         ctx.event("held")
         return
     ctx.event("VIOLATION")
-    ctx.violation(None, "records of two same-name descriptors (one lacks the field) are not filtered like the reference filter (%s)"
-                  % ("raised / rest lost" if (err or swallowed) else "different records"),
+    ctx.violation(None, "%s are not filtered like the reference filter (%s)"
+                  % ("grouped records of different composition (some lack the field)" if grouped
+                     else "records of two same-name descriptors (one lacks the field)",
+                     "raised / rest lost" if (err or swallowed) else "different records"),
                   detail={"selector": expr, "order": order, "via": via, "format": fmt, "expected_out": expected, "actual_out": actual,
                           "exception": repr(err)[:300] if err else None, "swallowed_log": swallowed[:3],
                           "input": [repr(r)[:120] for r in records[:6]]})
@@ -719,7 +768,7 @@ def exec_same_name(ctx, case):
 
 def execute(ctx, case):
     k = case["k"]
-    if k == "same-name":
+    if k in ("same-name", "grouped"):
         return exec_same_name(ctx, case)
     if k == "table":
         exec_table(ctx, case)
@@ -737,6 +786,7 @@ def finish(ctx):
                 "an engine was never evaluated in shard %d" % ctx.shard)
     ctx.require(ctx.events.get("streams", 0) > 0, "no stream was filtered in shard %d" % ctx.shard)
     ctx.require(ctx.events.get("same-name sequences", 0) > 0, "no same-name sequence was filtered in shard %d" % ctx.shard)
+    ctx.require(ctx.events.get("grouped sequences", 0) > 0, "no grouped-record sequence was filtered in shard %d" % ctx.shard)
     for q in ("flow.record.selector:NoneObject.__eq__", "flow.record.selector:NoneObject.__le__", "flow.record.selector:NoneObject.__contains__",
               "flow.record.selector:WrappedRecord.__getattr__", "flow.record.selector:RecordContextMatcher._eval"):
         ctx.require(ctx.reach.get(q, 0) > 0, "anchor %s was never entered" % q)
